@@ -30,7 +30,7 @@ func genC16(t *rapid.T) C16Scn {
 }
 
 func TestC16(t *testing.T) {
-	st := vx.NewStats("C16", "notices", "real chains of 2-4 nodes whose hop limit is the diameter + {0,1,27}; the first node has 1-5 sockets subscribed to unreachable notices (consumer optionally slow); "+
+	st := vx.NewStats("C16", "notices", "real chains of 2-4 nodes whose hop limit is the diameter + {0,1,27}; the first node has 1-5 sockets (the first three named alike but for letter case) subscribed to unreachable notices (consumer optionally slow); "+
 		"1-6 sends {socket, target node incl. own, service unbound / bound-then-closed / closed around the send / silently dropped by policy / bound, burst of 1-6 datagrams, hop budget default or route length + {0,1}}, "+
 		"0-2 stream dials to an unbound or silently dropped service; oracle: exactly the sending socket receives one well-formed 'service unknown' notice per datagram to an unbound service (same node: synchronous error), "+
 		"nothing for dropped or bound ones, no other socket receives anything; dial to unbound fails in < 10 s, dial to dropped ends by its own 3 s deadline; non-trivial = >= 2 sockets and a remote unbound target, or a dial")
